@@ -1,7 +1,7 @@
 (* C14 property theorems. This file contains only statements closed by
    [exact lemma] and Print Assumptions. *)
 From Coq Require Import String.
-From V Require Import Common.Base C14.Compat C14.Spec C14.LowerGraph C14.CompatProofs C14.TableProofs C14.LowerClosed C14.LowerProofs C14.Constructs C14.Sites C14.SitesProofs.
+From V Require Import Common.Base C14.Compat C14.Spec C14.LowerGraph C14.CompatProofs C14.TableProofs C14.LowerClosed C14.LowerProofs C14.Constructs C14.Sites C14.SitesProofs C14.Css C14.CssProofs.
 
 (* a newer ES target never makes more features unsupported: every pair of years *)
 Theorem es_monotone : forall y1 y2 f, y1 <= y2 ->
@@ -227,3 +227,47 @@ Theorem rejected_has_error_case : forall (U : fset) f, dispose U f = Rejected ->
   (in_mark_cases f MNotSupportedYet || in_mark_cases f MError) = true \/ f = FArbitraryModuleNamespaceNames.
 Proof. exact rejected_has_error_case_l. Qed.
 Print Assumptions rejected_has_error_case.
+
+(* ---------- CSS side (css_table.go, css_parser lowering gates) ---------- *)
+
+(* a target made only of non-browser engines never affects CSS: every constraint list *)
+Theorem css_non_browser_ignored : forall cs,
+  forallb (fun c : constraint => negb (is_browser (fst c))) cs = true -> css_unsupported_list cs = [].
+Proof. exact css_non_browser_ignored_l. Qed.
+Print Assumptions css_non_browser_ignored.
+
+(* cssTable: every entry is one open range of a browser engine with components that fit
+   uint16/uint8; one row per feature, no duplicate engines *)
+Theorem css_table_well_formed : css_table_wf = true.
+Proof. exact css_table_wf_l. Qed.
+Print Assumptions css_table_well_formed.
+
+(* a newer version of any one engine never makes more CSS features unsupported *)
+Theorem css_single_engine_monotone : forall f e v1 v2, vle3 v1 v2 ->
+  In f (css_unsupported_list [(e, sv3 v2)]) -> In f (css_unsupported_list [(e, sv3 v1)]).
+Proof. exact css_single_engine_monotone_l. Qed.
+Print Assumptions css_single_engine_monotone.
+
+Theorem css_supported_keys_bijective : css_string_table_ok = true.
+Proof. exact css_string_table_ok_l. Qed.
+Print Assumptions css_supported_keys_bijective.
+
+(* CSS lowering closure for EVERY unsupported set: a lowering writes supported syntax only,
+   except the color(...) declaration that follows its own clipped fallback declaration *)
+Theorem css_lowering_closed : forall (U : css_fset) f g,
+  U f = true -> css_dispose f = CLowered -> In g (css_emits U f) ->
+  U g = false \/ (g = CColorFunctions /\ (f = CColorFunctions \/ f = CGradientInterpolation)).
+Proof. exact css_lowering_closed_l. Qed.
+Print Assumptions css_lowering_closed.
+
+(* the only unsupported CSS syntax in an output: user-written :is() (never rewritten), the
+   inline-style switch, and color(...) after a fallback *)
+Theorem css_compile_leaks_exact : forall (U : css_fset) prog g,
+  In g (css_compile U prog) -> U g = true -> g = CIsPseudoClass \/ g = CInlineStyle \/ g = CColorFunctions.
+Proof. exact css_compile_sound_l. Qed.
+Print Assumptions css_compile_leaks_exact.
+
+Theorem css_compile_sound_refuted :
+  exists (U : css_fset) prog g, In g (css_compile U prog) /\ U g = true /\ css_dispose g = CGeneratedOnly.
+Proof. exact css_compile_refuted_l. Qed.
+Print Assumptions css_compile_sound_refuted.
